@@ -261,11 +261,14 @@ impl<F: Write + Seek> MiniAllocator<F> {
         let minifat_entries_per_sector = self.directory.sector_len() / 4;
         if self.minifat_start_sector == consts::END_OF_CHAIN {
             debug_assert!(self.minifat.is_empty());
-            self.minifat_start_sector =
-                self.directory.begin_chain(SectorInit::Fat)?;
+            // Only remember the new MiniFAT sector once the header names it;
+            // otherwise a retry after a failed header write would use a
+            // MiniFAT that the file does not know about.
+            let start_sector = self.directory.begin_chain(SectorInit::Fat)?;
             let mut header = self.directory.seek_within_header(60)?;
-            header.write_le_u32(self.minifat_start_sector)?;
+            header.write_le_u32(start_sector)?;
             header.write_le_u32(1)?;
+            self.minifat_start_sector = start_sector;
         } else {
             // Trailing free entries are not kept in `self.minifat`, so the
             // MiniFAT chain may have room left even when the number of entries
